@@ -81,9 +81,9 @@ fixed("FX-C05-01", "C05", "17431c1", "\\u in a struct key accepted any four byte
 fixed("FX-C02-03", "C02", "17431c1", "Decoder.Decode({\"\\ud83dx\":5,\"A\":1}) into a struct failed with 'expected colon after object key' (lone high surrogate in a key moved the cursor too far); two high halves in a row became one U+FFFD")
 
 # ------------------------------------------------------------------ C05
-ALL15 = r"(Valid|Unmarshal(NoEscape|Context|WithOption\(FirstWin\))?:.+|Decode(Context|WithOption\(FirstWin\)|\(\d-byte reads\))?:.+)"
-STREAM = r"(Valid|Decode(Context|WithOption\(FirstWin\)|\(\d-byte reads\))?:.+)"
-SKIPPERS = r"(Valid|Decode(Context|WithOption\(FirstWin\)|\(\d-byte reads\))?:.+|Unmarshal(Context|WithOption\(FirstWin\)):struct\{A\}|Unmarshal:(struct\{\}|struct\{A\}(\(after-options\))?|\[0\]int|\[1\]iface|RawMessage|Unmarshaler|\[\]RawMessage|map\[string\]Unmarshaler))"
+ALL15 = r"(Valid|Unmarshal(NoEscape|Context|WithOption\(FirstWin\))?:.+|Decode(Context|WithOption\(FirstWin\)|\(\d-byte reads\)|\(UseNumber[A-Za-z,]*\))?:.+)"
+STREAM = r"(Valid|Decode(Context|WithOption\(FirstWin\)|\(\d-byte reads\)|\(UseNumber[A-Za-z,]*\))?:.+)"
+SKIPPERS = r"(Valid|Decode(Context|WithOption\(FirstWin\)|\(\d-byte reads\)|\(UseNumber[A-Za-z,]*\))?:.+|Unmarshal(Context|WithOption\(FirstWin\)):struct\{A\}|Unmarshal:(struct\{\}|struct\{A\}(\(after-options\))?|struct\{N Number\}|\[0\]int|\[1\]iface|RawMessage|Unmarshaler|\[\]RawMessage|map\[string\]Unmarshaler))"
 M = "accept-language"
 known("KF-C05-01", "C05", M, ALL15, "ok-vs-err", r"relax=num:parsefloat-grammar",
       'Unmarshal("01"), ("1."), ("-.5"), ("1.e1") succeed',
